@@ -161,6 +161,8 @@ class Impl:
         self.ACCS = {"READ": "ARead", "WRITE": "AWrite", "READWRITE": "AReadWrite", "INC": "AInc",
                      "READINC": "AReadInc", "SUM": "ASum", "UNKNOWN": "AUnknown"}
         self.da = None
+        self.shared = None          # when a dict: THE options object passed to every transformation
+        self.options_modified = []  # (transformation, before, after) whenever a step changed that dict
         orig = DependencyTools.can_loop_be_parallelised
         me = self
 
@@ -288,6 +290,17 @@ class Impl:
                     options["collapse"] = 2
             elif op[0] == "OOmpDo" and len(op) > 3:
                 options = {"reprod": op[3]}
+        snapshot = None
+        if self.shared is not None:
+            options = self.shared            # the same object for every step of the history
+            snapshot = dict(options)
+        try:
+            return self._apply(trans, target, options)
+        finally:
+            if snapshot is not None and snapshot != self.shared:
+                self.options_modified.append((type(trans).__name__, snapshot, dict(self.shared)))
+
+    def _apply(self, trans, target, options):
         try:
             if options is None:
                 trans.apply(target)
@@ -349,7 +362,7 @@ def containers(t, path=()):
             yield from containers(n[2], path + (i,))
 
 
-def enumerate_ops(t, all_targets=True):
+def enumerate_ops(t, all_targets=True, grids=True):
     """every transformation on every node / range of siblings; beyond the first step the four loop
     transformations are only tried on loops and directives (kernels, halo exchanges and global
     sums are refused the same way at every depth)"""
@@ -359,7 +372,7 @@ def enumerate_ops(t, all_targets=True):
             if all_targets or kids[i][0] in ("L", "D"):
                 for name in ("OColour", "OOmpParDo", "OOmpDo"):
                     ops.append((name, path, i))
-                if kids[i][0] == "L":
+                if kids[i][0] == "L" and grids:
                     # option grids: sequential x gang x vector x collapse x independent; reprod
                     for o in (ACC_GRID if all_targets or len(path) <= 1 else ACC_DEEP):
                         ops.append(("OAccLoop", path, i, o))
@@ -411,6 +424,7 @@ class Explorer:
         self.ctx, self.impl, self.corpus = ctx, impl, corpus
         self.cases = {}            # coq string -> python description
         self.tree_ids = {}         # abstract tree -> number in the scratch tree library
+        self.shared_proto = None   # dict => every history passes ONE copy of it, as one object, to all its steps
         self.failures = {}         # key -> (what, replay dict)
         self.premise_bad = []
         self.other_exc = {}
@@ -429,6 +443,7 @@ class Explorer:
 
     def rebuild(self, spec, hist):
         psy, sched = self.corpus.build(spec)
+        self.impl.shared = dict(self.shared_proto) if self.shared_proto is not None else None
         for op in hist:
             ok, _, _ = self.impl.apply(sched, op)
             if not ok:
@@ -454,11 +469,14 @@ class Explorer:
 
     def explore(self, spec, maxlen, width, rng):
         impl, ctx = self.impl, self.ctx
+        shared = self.shared_proto is not None
         psy, sched = self.corpus.build(spec)
         t0 = impl.tree(sched)
-        self.check_initial(spec, sched, t0)
-        seen = {t0}
+        if not shared:
+            self.check_initial(spec, sched, t0)
+        seen = {(t0, None)}
         frontier = [()]
+        impl.shared = dict(self.shared_proto) if shared else None
         for depth in range(maxlen):
             nxt = []
             if len(frontier) > width:
@@ -468,8 +486,12 @@ class Explorer:
                 before = impl.tree(sched)
                 va0, vb0 = impl.violations(sched)
                 na0, nb0 = len(va0), len(vb0)
-                for op in enumerate_ops(before, all_targets=(depth == 0)):
+                for op in enumerate_ops(before, all_targets=(depth == 0 and not shared), grids=not shared):
+                    nmod = len(impl.options_modified)
                     acc, da, exc = impl.apply(sched, op)
+                    if shared:
+                        ctx.hist("shared_options_dict", "modified by " + impl.options_modified[-1][0]
+                                 if len(impl.options_modified) > nmod else "unchanged")
                     after = impl.tree(sched)
                     va, vb = impl.violations(sched)
                     cs = coq_case(self.tid(before), op, da, acc, self.tid(after), not va, not vb)
@@ -485,19 +507,24 @@ class Explorer:
                         self.other_exc.setdefault(exc, {"spec": spec, "history": list(hist), "op": op})
                     if cs not in self.cases:
                         self.cases[cs] = {"spec": spec, "history": [list(o) for o in hist], "op": list(op),
-                                          "accepted": acc, "da": da, "exception": exc}
+                                          "accepted": acc, "da": da, "exception": exc,
+                                          "shared_options": self.shared_proto}
                     if acc and (len(va) > na0 or len(vb) > nb0):
                         key, what = classify(impl, op, sched, va[na0:] if len(va) > na0 else [],
                                              vb[nb0:] if len(vb) > nb0 else [])
                         if key not in self.failures:
                             self.failures[key] = (what, {
                                 "spec": spec, "history": [list(o) for o in hist] + [list(op)],
+                                "shared_options": self.shared_proto,
+                                "shared_options_after": dict(impl.shared) if impl.shared is not None else None,
+                                "options_modified_by": [list(m) for m in impl.options_modified[-3:]] if shared else None,
                                 "tree_after": sched.view(colour=False),
                                 "property_A_failures": len(va), "property_B_failures": len(vb),
                                 "replay": "./check C23 --replay <this file>  (rebuilds the invoke and applies the history)"})
                     if acc:
-                        if after not in seen and depth + 1 < maxlen:
-                            seen.add(after)
+                        state = (after, tuple(sorted(impl.shared.items())) if shared else None)
+                        if state not in seen and depth + 1 < maxlen:
+                            seen.add(state)
                             nxt.append(hist + (op,))
                         psy, sched = self.rebuild(spec, hist)
             frontier = nxt
@@ -662,6 +689,37 @@ def eval_cases(ctx, per, check_fn, cases, shard=600):
     return sorted(failing)
 
 
+SHARED_OPTIONS = {"reprod": True, "independent": True}
+SHARED_SCRIPTS = [   # (calls, history) run with ONE options object; the invariant is evaluated after every step
+    (["k_inc_w0", "k_inc_w1"], [("OColour", (), 0), ("OOmpParDo", (0,), 0), ("OAccLoop", (), 1), ("OAccParallel", (), 1, 1)]),
+    (["k_inc_w0", "k_inc_w1"], [("OColour", (), 0), ("OOmpParDo", (0,), 0), ("OOmpDo", (), 1), ("OOmpParallel", (), 1, 1)]),
+    (["k_inc_w0", "k_inc_w1"], [("OColour", (), 0), ("OOmpDo", (0,), 0), ("OAccLoop", (), 1)]),
+    (["k_rinc_w0", "k_inc_any"], [("OColour", (), 1), ("OOmpParDo", (1,), 0), ("OAccLoop", (), 0)]),
+]
+
+
+def shared_scripts(ctx, ex):
+    impl = ex.impl
+    for calls, hist in SHARED_SCRIPTS:
+        spec = {"kind": "gen", "calls": calls, "dm": False}
+        psy, sched = ex.corpus.build(spec)
+        impl.shared = dict(SHARED_OPTIONS)
+        for k, op in enumerate(hist):
+            va0, vb0 = impl.violations(sched)
+            acc, da, exc = impl.apply(sched, op)
+            ctx.hist("shared_script_step", "%s:%s" % (op[0], "accepted" if acc else "refused"))
+            if not acc:
+                continue
+            va, vb = impl.violations(sched)
+            if len(va) > len(va0) or len(vb) > len(vb0):
+                key, what = classify(impl, op, sched, va[len(va0):], vb[len(vb0):])
+                ex.failures.setdefault(key, (what, {
+                    "spec": spec, "history": [list(o) for o in hist[:k + 1]], "shared_options": SHARED_OPTIONS,
+                    "shared_options_after": dict(impl.shared), "options_modified_by": [list(m) for m in impl.options_modified[-3:]],
+                    "tree_after": sched.view(colour=False), "replay": "./check C23 --replay <this file>"}))
+    impl.shared = None
+
+
 def gen_text_scenarios(ctx, ex):
     """ACCLoopTrans with `sequential` and every gang/vector/independent combination on (A) the uncoloured
     GH_INC loop and (B) the loop over colours of 1_single_invoke.f90, enclosed in an ACC parallel region;
@@ -762,6 +820,18 @@ def run(ctx):
         nbuilt += 1
         ctx.hist("invoke_kind", "%s dm=%s" % (spec["kind"], spec["dm"]))
         ctx.hist("distinct_trees_per_invoke", "%d+" % (min(n // 10 * 10, 200)))
+    # histories in which ONE options dict (never containing 'force') is passed, as one object, to every step
+    ex.shared_proto = SHARED_OPTIONS
+    for calls, ml, wd in [(["k_inc_w0", "k_rw_w3"], 2, 99)] + ([(["k_inc_w0", "k_inc_w1"], 3, 6),
+                                                              (["k_wr_w0", "k_inc_any", "setval_c"], 3, 6)]
+                                                             if ctx.thorough else [(["k_inc_w0", "k_inc_w1"], 3, 2)]):
+        spec = {"kind": "gen", "calls": calls, "dm": False}
+        ex.explore(spec, ml, wd, ctx.rng("shared:" + json.dumps(spec, sort_keys=True)))
+        ctx.hist("invoke_kind", "gen dm=False shared-options-dict")
+    shared_scripts(ctx, ex)
+    ex.shared_proto = None
+    impl.shared = None
+    ctx.notes["options_argument_modified"] = [list(m) for m in impl.options_modified[:5]]
     replay_witnesses(ctx, ex)
     ctx.notes["generated_code_scenarios_checked"] = gen_text_scenarios(ctx, ex)
     ctx.notes["invokes_explored"] = nbuilt
@@ -825,6 +895,8 @@ def replay(ctx, path):
     impl = Impl()
     corpus = Corpus(ctx.scratch)
     psy, sched = corpus.build(rp["spec"])
+    if rp.get("shared_options"):
+        impl.shared = dict(rp["shared_options"])     # one object passed to every step
     for op in rp["history"]:
         op = (op[0], tuple(op[1])) + tuple(tuple(x) if isinstance(x, list) else x for x in op[2:])
         print(op, impl.apply(sched, op))
